@@ -24,7 +24,9 @@ def check_property(pid, prop, tier, only=None, keep=False):
     seed = int(os.environ.get("VERIF_SEED", "0") or 0)
     results = []      # per obligation dicts
     notes = []
-    harnesses = [h for h in prop.get("kani", []) if tier == "thorough" or h.tier == "quick"]
+    all_h = prop.get("kani", [])
+    harnesses = [h for h in all_h if (tier == "thorough" or h.tier == "quick") and (not h.twin or tier == "thorough")]
+    twins = [h for h in all_h if h.twin and tier != "thorough"]
     units = [u for u in prop.get("verus", []) if tier == "thorough" or u.tier == "quick"]
     if only:
         keys = only.split(",")
@@ -38,6 +40,11 @@ def check_property(pid, prop, tier, only=None, keep=False):
                 for r in u.run(REPO, tier):
                     r["engine"] = "verus"
                     results.append(r)
+            # bounded Kani twins of Verus contracts: needed when Verus could not decide or reports a violation
+            # (they execute the compiled code, whatever constructs it uses, and yield replayable inputs)
+            if twins and any(r["verdict"] != "discharged" and not r.get("canary") for r in results):
+                log(f"[{pid}] Verus did not discharge everything: running {len(twins)} bounded Kani twin(s)")
+                harnesses = harnesses + [h for h in twins if not only or any(k in h.name for k in only.split(","))]
             # ---------------- Kani ----------------
             if harnesses:
                 overlays = [os.path.join(ROOT, "kani", "_base"), os.path.join(ROOT, "kani", pid)]
